@@ -438,6 +438,20 @@ impl<'a, T: Read + Write + Seek> PointCloudWriter<'a, T> {
                 ))?
             }
 
+            // Ensure that integer values are inside the range of the prototype entry,
+            // values outside of it cannot be stored with the bit size of the record
+            match (&p.data_type, value) {
+                (RecordDataType::Integer { min, max }, RecordValue::Integer(v))
+                | (RecordDataType::ScaledInteger { min, max, .. }, RecordValue::ScaledInteger(v)) => {
+                    if v < min || v > max {
+                        Error::invalid(format!(
+                            "Value {v} at index {i} is outside of the range {min}..{max} of the prototype"
+                        ))?
+                    }
+                }
+                _ => {}
+            }
+
             // Update cartesian bounds
             if p.name == RecordName::CartesianX
                 || p.name == RecordName::CartesianY
